@@ -171,6 +171,24 @@ fn sweeps(thorough: bool) -> Vec<Sweep> {
 		let o: json_syntax::Object = vec![Entry::new(format!("aaaaaaaaaaaaaaaaaaaa{c}").as_str().into(), Value::Null)].into_iter().collect();
 		("text".to_string(), pad(&Value::Object(o).to_string().chars().skip(22).collect::<String>(), 14))
 	})) });
+	// x ordinary characters, then one character that needs an escape (or several bytes): every position up to 300
+	for c in [1u32, 0x1f, 0x22, 0x5c, 0x0a, 0xe9, 0x20ac, 0x1f600] {
+		v.push(Sweep { sw: json!(["print_pad", c]), lo: 0, hi: 300, f: Box::new(move |x| {
+			let mut s = "a".repeat(x as usize);
+			s.push(char::from_u32(c).unwrap());
+			match guarded(|| Value::String(s.as_str().into()).compact_print().to_string()) {
+				Ok(t) => {
+					let cs: Vec<char> = t.chars().collect();
+					let mut tail: Vec<i64> = cs.iter().skip(x as usize + 1).map(|c| *c as i64).collect();
+					tail.resize(8, -1);
+					let mut p = vec![cs.len() as i64];
+					p.extend(tail);
+					Some(("tail".to_string(), p))
+				}
+				Err(_) => Some(("panic".to_string(), vec![-1; 9])),
+			}
+		}) });
+	}
 	// the width attributed to every scalar by the layout decision: the smallest Limit::Width under which the one-line
 	// form is kept (scanned upwards from 4: no one-character string in brackets is narrower than 5)
 	fn min_inline(v: &Value, obj: bool) -> i64 {
